@@ -28,6 +28,10 @@ type body struct {
 	remainingContentLength int64
 	violatedContentLength  bool
 	hasContentLength       bool
+	// noContentExpected is set for messages that may declare a Content-Length without carrying content:
+	// responses to HEAD requests, and 1xx, 204 and 304 responses (see section 8.6 of RFC 9110).
+	// All other messages are malformed if they end before Content-Length bytes were received.
+	noContentExpected bool
 }
 
 func newBody(str *Stream, contentLength int64) *body {
@@ -67,6 +71,16 @@ func (r *body) Read(b []byte) (int, error) {
 	r.remainingContentLength -= int64(n)
 	if err := r.checkContentLengthViolation(); err != nil {
 		return n, err
+	}
+	if err == io.EOF && r.hasContentLength && r.remainingContentLength > 0 && !r.noContentExpected {
+		// The message ended before the number of bytes indicated by the Content-Length header was received.
+		// Such a message is malformed, see section 4.1.2 of RFC 9114.
+		if !r.violatedContentLength {
+			r.str.CancelRead(quic.StreamErrorCode(ErrCodeMessageError))
+			r.str.CancelWrite(quic.StreamErrorCode(ErrCodeMessageError))
+			r.violatedContentLength = true
+		}
+		return n, io.ErrUnexpectedEOF
 	}
 	return n, maybeReplaceError(err)
 }
